@@ -67,7 +67,7 @@ func profileOf(name string) profileCfg {
 		m["obs"] = 0
 	case "observers":
 		c.minObs, c.maxObs = 3, 8
-		m["obs"], m["otoggle"], m["emit"], m["set"] = 4, 4, 3, 2
+		m["obs"], m["otoggle"], m["emit"], m["set"], m["relbatch"], m["setrel"] = 4, 4, 3, 2, 3, 2
 	case "relations":
 		m["setrel"], m["setrelb"], m["del"], m["delb"], m["shrink"] = 3, 3, 2, 2, 2
 	case "batch":
@@ -78,13 +78,13 @@ func profileOf(name string) profileCfg {
 		c.stale = 0.15
 	case "queries":
 		c.minFilters = 5
-		m["query"], m["qopen"], m["filter"], m["setrel"] = 4, 4, 3, 2
+		m["query"], m["qopen"], m["filter"], m["setrel"], m["twinq"] = 4, 4, 3, 2, 4
 	case "cache":
 		c.minFilters = 4
 		m["freg"], m["query"], m["qopen"], m["setrel"], m["del"], m["shrink"], m["reset"], m["filter"] = 6, 4, 3, 2, 2, 3, 3, 2
 	case "lock":
 		c.maxOpen = 70
-		m["qopen"], m["locked"], m["freg"] = 12, 5, 2
+		m["qopen"], m["locked"], m["freg"], m["relbatch"], m["obs"] = 12, 5, 2, 3, 3
 	case "stale":
 		c.stale = 0.35
 		m["copy"], m["emit"] = 3, 2
@@ -425,7 +425,7 @@ func (g *Gen) extraRels(l int, p float64) string {
 	var rs []string
 	for _, n := range fo.names {
 		if g.isRel(n) && g.chance(0.7) {
-			rs = append(rs, fmt.Sprintf("c%d>%s", n, g.pickTarget(0.02)))
+			rs = append(rs, fmt.Sprintf("c%d>%s", n, g.pickTarget(0.15)))
 		}
 	}
 	if len(rs) == 0 {
@@ -473,6 +473,13 @@ func (g *Gen) newObserver() {
 	}
 	if g.chance(0.25) && ev != "create" && ev != "remove" {
 		script = append(script, "trynew")
+	}
+	// un-/re-registration from inside a callback (itself or another observer)
+	if g.chance(0.15) && g.nextObs > 0 {
+		script = append(script, fmt.Sprintf("unreg:o%d", g.pick(g.nextObs)))
+	}
+	if g.chance(0.08) && g.nextObs > 0 {
+		script = append(script, fmt.Sprintf("reg:o%d", g.pick(g.nextObs)))
 	}
 	if len(script) > 0 {
 		line += " script=" + strings.Join(script, ",")
@@ -686,10 +693,108 @@ func (g *Gen) opSetRel() bool {
 		p = "m"
 	}
 	var parts []string
-	for _, n := range cs {
-		parts = append(parts, fmt.Sprintf("c%d>%s", n, g.pickTarget(0.03)))
+	for i, n := range cs {
+		tgt := g.pickTarget(0.03)
+		if alive && i > 0 && g.chance(0.5) {
+			// re-set this relation to its current target (no change for this component)
+			if cur, ok := g.currentTarget(l, n); ok {
+				tgt = cur
+			}
+		}
+		parts = append(parts, fmt.Sprintf("c%d>%s", n, tgt))
 	}
 	g.emit(fmt.Sprintf("setrel %s %s %s", el, p, strings.Join(parts, " ")))
+	return true
+}
+
+// currentTarget returns the label token of the current target of relation component n of entity l.
+func (g *Gen) currentTarget(l, n int) (string, bool) {
+	e := g.h.labels[l]
+	rc := g.h.comps[n]
+	if rc == nil {
+		return "", false
+	}
+	var t ecs.Entity
+	if try(func() { t = g.h.u.GetRelation(e, rc.id) }) != "" {
+		return "", false
+	}
+	if t == (ecs.Entity{}) {
+		return "z", true
+	}
+	if lbl, ok := g.h.names[t]; ok {
+		return fmt.Sprintf("e%d", lbl), true
+	}
+	return "", false
+}
+
+// opRelBatchNoFn: batch creation through Map[T] with a relation target and no callback.
+func (g *Gen) opRelBatchNoFn() bool {
+	var rels []int
+	for _, n := range g.regNames() {
+		if g.isRel(n) {
+			rels = append(rels, n)
+		}
+	}
+	if len(rels) == 0 {
+		return false
+	}
+	n := rels[g.pick(len(rels))]
+	cnt := 1 + g.pick(4)
+	l := g.nextEnt
+	g.nextEnt += cnt
+	for i := 0; i < cnt; i++ {
+		g.ents = append(g.ents, l+i)
+	}
+	g.emit(fmt.Sprintf("newb e%d %d m nofn c%d>%s", l, cnt, n, g.pickTarget(0.02)))
+	return true
+}
+
+// opTwinQueries: a Batch(rel) call on a typed filter followed by two simultaneously open
+// queries of that filter with different per-query targets, advanced alternately.
+func (g *Gen) opTwinQueries() bool {
+	var cands []int
+	for _, l := range g.typedFilters {
+		fo := g.h.filters[l]
+		for _, n := range fo.names {
+			if g.isRel(n) {
+				cands = append(cands, l)
+				break
+			}
+		}
+	}
+	if len(cands) == 0 || len(g.openQueries) > 0 {
+		return false
+	}
+	l := cands[g.pick(len(cands))]
+	r1, r2 := g.extraRels(l, 1), g.extraRels(l, 1)
+	if r1 == "" || r2 == "" {
+		return false
+	}
+	if g.chance(0.7) {
+		g.emit(fmt.Sprintf("setrelb f%d m nofn%s %s", l, g.extraRels(l, 1), strings.TrimPrefix(strings.Split(r1, ",")[0], " rel=")))
+	}
+	q1, q2 := g.nextQuery, g.nextQuery+1
+	g.nextQuery += 2
+	g.emit(fmt.Sprintf("qopen q%d f%d%s", q1, l, r1))
+	g.emit(fmt.Sprintf("qopen q%d f%d%s", q2, l, r2))
+	a1, a2 := g.h.queries[q1] != nil, g.h.queries[q2] != nil
+	for i := 0; i < 3; i++ {
+		if a1 {
+			g.emit(fmt.Sprintf("qcount q%d", q1))
+			g.emit(fmt.Sprintf("qnext q%d", q1))
+			a1 = g.queryActive(q1)
+		}
+		if a2 {
+			g.emit(fmt.Sprintf("qnext q%d", q2))
+			a2 = g.queryActive(q2)
+		}
+	}
+	if a1 {
+		g.emit(fmt.Sprintf("qclose q%d", q1))
+	}
+	if a2 {
+		g.emit(fmt.Sprintf("qclose q%d", q2))
+	}
 	return true
 }
 
@@ -1110,6 +1215,8 @@ func (g *Gen) Run(nseq, nops int) {
 				return g.opDumpLoad()
 			}},
 			{"res", 1, g.opRes},
+			{"relbatch", 2, g.opRelBatchNoFn},
+			{"twinq", 2, g.opTwinQueries},
 			{"locked", 1, func() bool { g.emit("locked"); return true }},
 		}
 		total := 0
